@@ -332,6 +332,11 @@ func tables(reg *registry, payload []byte) (ftab, itab, ttab string) {
 	split := func(seps string) {
 		for _, t := range strings.FieldsFunc(string(payload), func(r rune) bool { return strings.ContainsRune(seps, r) }) {
 			add(t)
+			if len(t) <= 64 { // a value can follow a metric name or a closing brace directly
+				for i := 1; i < len(t); i++ {
+					add(t[i:])
+				}
+			}
 		}
 	}
 	if len(payload) > 0 {
@@ -455,7 +460,7 @@ func main() {
 		if r.panicked != "" {
 			meta.GoViol = append(meta.GoViol, gallina.GoViolation{ID: strconv.Itoa(id), Shape: "parser-panic-" + fmtNames[format], What: fmt.Sprintf("%s on %q", r.panicked, payload)})
 		}
-		reg := &registry{floats: map[uint64]bool{}, ints: map[int64]bool{}}
+		reg := &registry{floats: map[uint64]bool{math.Float64bits(math.Inf(1)): true}, ints: map[int64]bool{}}
 		var fg []string
 		if valid {
 			for i := range fams {
@@ -474,7 +479,7 @@ func main() {
 			shape = classify(fams, format, o)
 		}
 		d := desc{Format: fmtNames[format], Opts: o, Kind: kind, Err: r.errs, Shape: shape, Gen: gi}
-		if len(payload) <= 600 {
+		if len(payload) <= 4000 {
 			d.Payload = strconv.Quote(string(payload))
 		}
 		meta.Case(id, d)
